@@ -500,3 +500,81 @@ def literal_tree(base: str, deep: bool):
     raws = reinterp_raws(_Where(base, PKG + "_lit"), deep)
     # ids 8 and 9 (files named "~" and "%2e%2e") make room for directories of those names
     return Tree(base, extra=literal_files(raws), drop=(8, 9), pkg=PKG + "_lit"), raws
+
+
+# ------------------------------------------------------------------------------- long names (size dimension)
+# one representative per character class of the pipeline
+SAN_CLASSES = {"alnum": "a", "dot": ".", "uscore": "_", "dash": "-", "space": " ", "sep": "/", "fold_letter": "\uff41",
+               "fold_dot": "\uff0e", "combining": "\u0301", "stripped": "~", "dropped": "\u20ac", "fold_space": "\u3000"}
+SAN_FILLERS = ["a", "\uff41", "e\u0301", "ab-"]
+
+
+def _place(length, filler, placed):
+    """a name of `length` characters made of `filler`, with the given characters at 1-based positions
+    (negative = from the end)"""
+    chars = list((filler * (length // len(filler) + 1))[:length])
+    for pos, ch in placed.items():
+        i = pos - 1 if pos > 0 else length + pos
+        if 0 <= i < length:
+            chars[i] = ch
+    return "".join(chars)
+
+
+def long_san_cases(rng: random.Random, quick: bool):
+    cl = list(SAN_CLASSES.values())
+    out = []
+    # typical limit 255: every pair of classes at the last two positions, every length 250..260
+    for length in range(250, 261):
+        for a in cl:
+            for b in cl:
+                out.append(_place(length, "a", {-2: a, -1: b}))
+    # every pair (quick) / triple (thorough) of classes at positions 253..256 of a longer name, the documented examples
+    for a in cl:
+        for b in cl:
+            out.append(_place(262, "a", {255: a, 256: b}))
+            out.append(_place(262, "a", {254: a, 255: b}))
+            out.append(_place(262, "a", {253: a, 254: b}))
+            out.append(_place(258, "a", {1: a, 2: b}))
+            out.append(_place(258, "\uff41", {255: a, 256: b}))
+            if not quick:
+                for c in cl:
+                    out.append(_place(262, "a", {254: a, 255: b, 256: c}))
+                    out.append(_place(259, "a", {1: a, 2: b, 3: c}))
+                    out.append(_place(259, "a", {-3: a, -2: b, -1: c}))
+    out += ["a" * 254 + ".txt", "a" * 254 + "_final.txt", "\uff41" * 254 + "\uff0e", "\uff41" * 254 + "\uff0etxt",
+            "a" * 255, "a" * 256, "." + "a" * 255, "a" * 255 + ".", "_" * 255 + "a", "a" + "." * 255 + "a", " " * 255 + "a",
+            "a" * 250 + ".tar.gz", "e\u0301" * 255 + ".e\u0301", "a" * 251 + ". . .", "a" * 253 + "/.b", "/" * 256, "." * 256]
+    # names whose sanitised form is exactly n characters with a strip character right behind / at the cut
+    for n in (255, 256):
+        for tail in (".", "_", "._", "-.", ".a", "_a", " a", "/a", "\uff0ea", "\u20ac.a"):
+            out.append("a" * (n - 1) + tail)
+            out.append("a" * n + tail)
+            out.append("~" * 7 + "a" * (n - 1) + tail)
+            out.append("\uff41" * (n - 1) + tail)
+    # a strip character at EVERY position: whatever the cut position, one of these ends in '.' or '_' there
+    for total in (300, 4100):
+        if quick and total == 4100:
+            continue
+        for head in ("a", "aa"):
+            for pair in (".a", "_a", "._a"):
+                out.append((head + pair * total)[:total])
+    # around 4096
+    ks = cl[:5] if quick else cl
+    for length in (range(4095, 4098) if quick else range(4090, 4101)):
+        for a in ks:
+            out.append(_place(length, "a", {-1: a}))
+            if not quick:
+                for b in cl:
+                    out.append(_place(length, "a", {-2: a, -1: b}))
+    for a in ks:
+        for b in ks:
+            out.append(_place(4102, "a", {4095: a, 4096: b}))
+            if not quick:
+                out.append(_place(4102, "a", {4096: a, 4097: b}))
+                out.append(_place(4102, "\uff41", {4095: a, 4096: b}))
+    # random lengths 8..300, random class at every position (dots and underscores frequent)
+    weights = [6, 3, 3, 1, 2, 1, 2, 1, 1, 1, 1, 1]
+    for _ in range(600 if quick else 30000):
+        length = rng.randrange(8, 301)
+        out.append("".join(rng.choices(cl, weights)[0] for _ in range(length)))
+    return [[x] for x in dict.fromkeys(out)]
